@@ -31,18 +31,19 @@ def run_for(families, timeout=3600, jobs=8):
             for p in ps:
                 out[p['name']] = 'error timeout'
             continue
-        # "Checking harness kproofs::NAME..." ... "VERIFICATION:- SUCCESSFUL|FAILED"
-        cur = None
-        for line in txt.splitlines():
-            m = re.search(r'Checking harness (?:\w+::)*(\w+)\.\.\.', line)
-            if m:
-                cur = m.group(1)
-            m = re.search(r'VERIFICATION:- (\w+)', line)
-            if m and cur:
-                out[cur] = 'pass' if m.group(1) == 'SUCCESSFUL' else 'fail'
-                cur = None
-        for p in ps:
-            out.setdefault(p['name'], 'error no verdict (%s)' % txt[-300:].replace('\n', ' '))
+        # with -j the per-harness output of the threads interleaves: use the final summary
+        # ("Verification failed for - <path>" lines, then "Complete - X successfully verified harnesses, Y failures, Z total.")
+        m = re.search(r'Complete - (\d+) successfully verified harnesses, (\d+) failures, (\d+) total', txt)
+        if m and int(m.group(3)) == len(ps):
+            failed = set(re.findall(r'Verification failed for - (?:\w+::)*(\w+)', txt))
+            for p in ps:
+                out[p['name']] = 'fail' if p['name'] in failed else 'pass'
+            if len(failed) != int(m.group(2)):
+                for p in ps:
+                    out[p['name']] = 'error summary mismatch'
+        else:
+            for p in ps:
+                out[p['name']] = 'error no summary (%s)' % txt[-300:].replace('\n', ' ')
         runner.log('  [K] group %s: %d proofs in %.0fs: %s' % (group, len(ps), time.time() - t0,
                                                             ' '.join('%s=%s' % (p['name'], out[p['name']][:5]) for p in ps)))
     return out
